@@ -154,9 +154,19 @@ def gen(tier, rng):
         for _ in range(rng.randrange(0, 3)):
             variants.append(decanon(rng, der))
         for v in variants:
-            r = "run der slice %s %s" % (hx(v), dec)
+            for src in ("slice", "stingy"):
+                r = "run der %s %s %s" % (src, hx(v), dec)
+                out.append(r)
+                SHAPES[r] = (sh, v)
+    # padded / non-minimal leaves behind a source that grants exactly what is requested
+    import scripts
+    for (m, d, sc) in scripts.leaf_battery(rng, 3000 if tier == "quick" else 30000):
+        toks = sc.split()
+        if d[:1] == b"\x02" and ((toks[0] == "T" and toks[1] in ("u8", "u16", "u32", "u64")) or (toks[0] == "tpi" and toks[3] == "int")):
+            ty = toks[4] if toks[0] == "tpi" else toks[1]
+            r = "run der stingy %s tpi u2 [ int %s ]" % (hx(d), ty)
             out.append(r)
-            SHAPES[r] = (sh, v)
+            SHAPES[r] = (("int", ty), d)
     return out
 
 def phase2(reqs, answers):
